@@ -218,6 +218,10 @@ def ocaml_eval(stmts, timeout=900):
         shutil.rmtree(tmpd, ignore_errors=True)
 
 def ml_ints(xs): return '[' + ';'.join('(%d)' % x for x in xs) + ']'
+def ml_zlist(xs):
+    """OCaml expression of type z list (big values go through decimal strings)"""
+    if all(abs(x) < (1 << 61) for x in xs): return '(zl ' + ml_ints(xs) + ')'
+    return '(zsl [' + ';'.join('"%d"' % x for x in xs) + '])'
 def ml_pairs(xs): return '[' + ';'.join('((%d),(%d))' % tuple(x) for x in xs) + ']'
 
 def parse_coq_lists(out):
